@@ -99,4 +99,452 @@ theorem noPanic_aclParts (tb : Tables) (orig : Str) (parts : List Str) :
       · exact noPanic_convObject tb orig _
   · exact NoPanic.bind (noPanic_convObject tb orig _) fun s4 => noPanic_ok _
 
+
+/-! ### strings -/
+
+theorem fields_cons_ne_nil {c : Char} (cs : Str) (h : isSpace c = false) : fields (c :: cs) ≠ [] := by
+  unfold fields
+  rw [if_neg (by simp [h])]
+  split
+  · simp
+  · split
+    · simp
+    · split <;> simp
+
+theorem fields_mem_ne_nil : ∀ (s : Str) (w : Str), w ∈ fields s → w ≠ []
+  | [], w, h => by simp [fields] at h
+  | c :: cs, w, h => by
+    unfold fields at h
+    split at h
+    · exact fields_mem_ne_nil cs w h
+    · split at h
+      · simp at h; subst h; simp
+      · split at h
+        · simp at h
+          rcases h with h | h
+          · subst h; simp
+          · exact fields_mem_ne_nil _ w h
+        · split at h
+          · rename_i w' ws heq
+            simp at h
+            rcases h with h | h
+            · subst h; simp
+            · exact fields_mem_ne_nil _ w (by rw [heq]; simp [h])
+          · simp at h; subst h; simp
+
+theorem getIndent_of_mem : ∀ (l : Str), (∃ c ∈ l, c ≠ ' ') → ∃ k, getIndent l = some k ∧ k < l.length
+  | [], h => by simp at h
+  | c :: cs, h => by
+    unfold getIndent
+    by_cases hc : c = ' '
+    · subst hc
+      have : ∃ c ∈ cs, c ≠ ' ' := by
+        obtain ⟨d, hd, hne⟩ := h
+        simp at hd
+        rcases hd with hd | hd
+        · exact absurd hd hne
+        · exact ⟨d, hd, hne⟩
+      obtain ⟨k, hk, hlt⟩ := getIndent_of_mem cs this
+      refine ⟨k + 1, ?_, ?_⟩
+      · simp [hk]
+      · simp; omega
+    · exact ⟨0, by simp [hc], by simp⟩
+
+theorem dropWhile_head_not {α : Type} (p : α → Bool) : ∀ (l : List α) (a : α) (t : List α),
+    l.dropWhile p = a :: t → p a = false
+  | [], a, t, h => by simp at h
+  | x :: xs, a, t, h => by
+    simp only [List.dropWhile_cons] at h
+    split at h
+    · exact dropWhile_head_not p xs a t h
+    · simp at h
+      rcases h with ⟨h1, _⟩
+      subst h1
+      simpa using ‹¬ p x = true›
+
+/-- A right-trimmed non-empty line contains a character that is not white space. -/
+theorem trimRight_exists (s : Str) (h : trimRight s ≠ []) : ∃ c ∈ trimRight s, isSpace c = false := by
+  unfold trimRight at *
+  cases hd : List.dropWhile isSpace s.reverse with
+  | nil => simp [hd] at h
+  | cons a t =>
+    refine ⟨a, by simp, dropWhile_head_not isSpace _ a t hd⟩
+
+theorem not_space_ne_blank {c : Char} (h : isSpace c = false) : c ≠ ' ' := by
+  intro hc; subst hc; simp [isSpace] at h
+
+/-- `getIndent` of a right-trimmed non-empty line: found, and inside the line. -/
+theorem getIndent_trimRight (s : Str) (h : trimRight s ≠ []) :
+    ∃ k, getIndent (trimRight s) = some k ∧ k < (trimRight s).length := by
+  obtain ⟨c, hc, hs⟩ := trimRight_exists s h
+  exact getIndent_of_mem _ ⟨c, hc, not_space_ne_blank hs⟩
+
+/-! ### matchCmd -/
+
+def incompleteString : Panic := .explicit "Incomplete string"
+
+theorem mem_drop {α : Type} {a : α} : ∀ {n : Nat} {l : List α}, a ∈ l.drop n → a ∈ l
+  | 0, l, h => by simpa using h
+  | n + 1, [], h => by simp at h
+  | n + 1, x :: xs, h => by
+    simp at h
+    exact List.mem_cons_of_mem _ (mem_drop h)
+
+/-- With non-empty words (`strings.Fields`), the only panic of the template loop is the
+explicit "Incomplete string". -/
+theorem matchTemplate_panicOnly : ∀ (tmpl args : List Str) (acc : MatchAcc),
+    (∀ w ∈ args, w ≠ []) → PanicOnly incompleteString (matchTemplate tmpl args acc)
+  | [], args, acc, _ => by
+    unfold matchTemplate; exact NoPanic.panicOnly (noPanic_ok _)
+  | tok :: ts, args, acc, hne => by
+    unfold matchTemplate
+    split
+    · exact NoPanic.panicOnly (noPanic_ok _)
+    · rename_i w rest
+      have hrest : ∀ x ∈ rest, x ≠ [] := fun x hx => hne x (List.mem_cons_of_mem _ hx)
+      split
+      · exact matchTemplate_panicOnly ts rest _ hrest
+      · split
+        · split
+          · exact NoPanic.panicOnly (noPanic_ok _)
+          · exact matchTemplate_panicOnly ts rest _ hrest
+        · split
+          · exact matchTemplate_panicOnly ts rest _ hrest
+          · split
+            · split
+              · exact absurd rfl (hne [] (by simp))
+              · split
+                · split
+                  · intro p hp; cases hp; rfl
+                  · exact matchTemplate_panicOnly ts _ _ (fun x hx => hne x (mem_drop hx))
+                · exact matchTemplate_panicOnly ts rest _ hrest
+            · split
+              · exact NoPanic.panicOnly (noPanic_ok _)
+              · split
+                · exact NoPanic.panicOnly (noPanic_ok _)
+                · exact matchTemplate_panicOnly ts rest _ hrest
+
+/-- A template without the `"` token never panics, for ANY words (also empty ones). -/
+theorem matchTemplate_noPanic : ∀ (tmpl args : List Str) (acc : MatchAcc),
+    lit "\"" ∉ tmpl → NoPanic (matchTemplate tmpl args acc)
+  | [], args, acc, _ => by
+    unfold matchTemplate; exact noPanic_ok _
+  | tok :: ts, args, acc, hq => by
+    have hts : lit "\"" ∉ ts := fun h => hq (List.mem_cons_of_mem _ h)
+    have htok : tok ≠ lit "\"" := fun h => hq (by simp [h])
+    unfold matchTemplate
+    split
+    · exact noPanic_ok _
+    · rename_i w rest
+      split
+      · exact matchTemplate_noPanic ts rest _ hts
+      · split
+        · split
+          · exact noPanic_ok _
+          · exact matchTemplate_noPanic ts rest _ hts
+        · split
+          · exact matchTemplate_noPanic ts rest _ hts
+          · split
+            · exact noPanic_ok _
+            · split
+              · exact noPanic_ok _
+              · exact matchTemplate_noPanic ts rest _ hts
+
+theorem matchCmd_panicOnly (pre : Str) (words : List Str) (hne : ∀ w ∈ words, w ≠ []) :
+    ∀ ds : List (Nat × List Str × Bool), PanicOnly incompleteString (matchCmd pre words ds)
+  | [] => by unfold matchCmd; exact NoPanic.panicOnly (noPanic_ok _)
+  | (i, tmpl, ign) :: ds => by
+    unfold matchCmd
+    have h := matchTemplate_panicOnly tmpl words { parsed := [], name := [], seq := 0, ref := [] } hne
+    split
+    · rename_i p hp
+      intro q hq; cases hq; exact h p hp
+    · exact NoPanic.panicOnly (noPanic_diag _)
+    · exact matchCmd_panicOnly pre words hne ds
+    · split
+      · exact matchCmd_panicOnly pre words hne ds
+      · split
+        · exact NoPanic.panicOnly (noPanic_ok _)
+        · exact NoPanic.panicOnly (noPanic_ok _)
+
+theorem matchCmd_noPanic (pre : Str) (words : List Str) :
+    ∀ ds : List (Nat × List Str × Bool), (∀ d ∈ ds, lit "\"" ∉ d.2.1) → NoPanic (matchCmd pre words ds)
+  | [], _ => by unfold matchCmd; exact noPanic_ok _
+  | (i, tmpl, ign) :: ds, hq => by
+    unfold matchCmd
+    have h := matchTemplate_noPanic tmpl words { parsed := [], name := [], seq := 0, ref := [] }
+      (hq (i, tmpl, ign) (by simp))
+    have hds : ∀ d ∈ ds, lit "\"" ∉ d.2.1 := fun d hd => hq d (List.mem_cons_of_mem _ hd)
+    split
+    · rename_i p hp
+      exact absurd hp (h p)
+    · exact noPanic_diag _
+    · exact matchCmd_noPanic pre words ds hds
+    · split
+      · exact matchCmd_noPanic pre words ds hds
+      · split
+        · exact noPanic_ok _
+        · exact noPanic_ok _
+
+/-! ### lookupCmd and the line loop -/
+
+/-- no top-level template contains the `"` token (a fact of the command tables). -/
+def NoQuoteTop (ds : List Descr) : Prop := ∀ d ∈ ds, lit "\"" ∉ d.template
+
+theorem mem_indexed {α : Type} {l : List α} {x : Nat × α} (h : x ∈ indexed l) : x.2 ∈ l := by
+  unfold indexed at h
+  exact (List.of_mem_zip h).2
+
+theorem lookupAux_noPanic (ds : List (Nat × Descr)) (hq : ∀ d ∈ ds, lit "\"" ∉ d.2.template) :
+    ∀ (words pre : List Str), NoPanic (lookupAux ds pre words)
+  | [], pre => by unfold lookupAux; exact noPanic_ok _
+  | w :: rest, pre => by
+    unfold lookupAux
+    simp only
+    split
+    · exact noPanic_ok _
+    · split
+      · apply matchCmd_noPanic
+        intro d hd
+        simp at hd
+        obtain ⟨a, b, hab, rfl⟩ := hd
+        exact hq (a, b) hab.1
+      · exact lookupAux_noPanic ds hq rest _
+
+theorem lookupCmd_noPanic (ds : List Descr) (hq : NoQuoteTop ds) (line : Str) :
+    NoPanic (lookupCmd ds line) := by
+  unfold lookupCmd
+  exact lookupAux_noPanic _ (fun d hd => hq d.2 (mem_indexed hd)) _ _
+
+/-- What `subIndent` returns lies inside the line. -/
+theorem subIndent_ok (fixed : Bool) (st : LoopSt) (pc : Cmd) (s : Str) (h : trimRight s ≠ [])
+    (i : Nat) (f : Str) (hr : subIndent fixed st pc (trimRight s) = .ok (i, f)) :
+    i < (trimRight s).length := by
+  obtain ⟨k, hk, hlt⟩ := getIndent_trimRight s h
+  unfold subIndent at hr
+  rw [hk] at hr
+  split at hr
+  · simp at hr; omega
+  · simp only at hr
+    split at hr
+    · split at hr
+      · cases hr
+      · split at hr <;> cases hr
+    · rename_i hbad
+      simp at hr hbad
+      omega
+
+theorem subIndent_panicFree (st : LoopSt) (pc : Cmd) (s : Str) (h : trimRight s ≠ []) :
+    NoPanic (subIndent true st pc (trimRight s)) := by
+  obtain ⟨k, hk, _⟩ := getIndent_trimRight s h
+  unfold subIndent
+  rw [hk]
+  split
+  · exact noPanic_ok _
+  · simp only
+    split
+    · simp; exact noPanic_diag _
+    · exact noPanic_ok _
+
+theorem subBody_panicOnly (ds : List Descr) (st : LoopSt) (pc : Cmd) (others : List Cmd) (line : Str)
+    (i : Nat) (f : Str) (hi : i < line.length) :
+    PanicOnly incompleteString (subBody ds st pc others line i f) := by
+  unfold subBody
+  have hle : i ≤ line.length := Nat.le_of_lt hi
+  simp only [hle, if_true]
+  split
+  · rename_i hd
+    have : (line.drop i).length = 0 := by rw [hd]; rfl
+    simp at this
+    omega
+  · rename_i d body hd
+    split
+    · exact NoPanic.panicOnly (noPanic_ok _)
+    · rename_i hdsp
+      refine PanicOnly.bind ?_ ?_
+      · apply matchCmd_panicOnly
+        exact fun w hw => fields_mem_ne_nil _ w hw
+      · intro oc
+        split <;> exact NoPanic.panicOnly (noPanic_ok _)
+
+/-- One iteration of the line loop of `ParseConfig` after the fix: for ANY bytes of the line,
+ANY loop state and ANY command tables whose top-level templates have no `"` token, the only Go
+panic left is the explicit "Incomplete string" of `matchCmd` (pinned by the suite). -/
+theorem parseLine_panicOnly (ds : List Descr) (hq : NoQuoteTop ds) (isRaw : Bool) (st : LoopSt) (raw : Str) :
+    PanicOnly incompleteString (parseLine true ds isRaw st raw) := by
+  unfold parseLine
+  simp only
+  split
+  · exact NoPanic.panicOnly (noPanic_ok _)
+  · rename_i c0 tl hline
+    have hne : trimRight raw ≠ [] := by rw [hline]; simp
+    split
+    · exact NoPanic.panicOnly (noPanic_ok _)
+    · split
+      · exact NoPanic.panicOnly (noPanic_ok _)
+      · split
+        · refine NoPanic.panicOnly (NoPanic.bind ?_ ?_)
+          · exact lookupCmd_noPanic ds hq _
+          · intro oc
+            split
+            · split
+              · exact noPanic_diag _
+              · exact noPanic_ok _
+            · exact noPanic_ok _
+        · split
+          · exact NoPanic.panicOnly (noPanic_ok _)
+          · split
+            · exact NoPanic.panicOnly (noPanic_ok _)
+            · rename_i pc others _
+              intro p hp
+              cases hsi : subIndent true st pc (trimRight raw) with
+              | panic q => exact absurd hsi (subIndent_panicFree st pc raw hne q)
+              | diag m => rw [hsi] at hp; cases hp
+              | ok r =>
+                obtain ⟨i, f⟩ := r
+                rw [hsi] at hp
+                exact subBody_panicOnly ds st pc others _ i f (subIndent_ok true st pc raw hne i f hsi) p hp
+
+theorem parseLines_panicOnly (ds : List Descr) (hq : NoQuoteTop ds) (isRaw : Bool) :
+    ∀ (ls : List Str) (st : LoopSt), PanicOnly incompleteString (parseLines true ds isRaw st ls)
+  | [], st => by unfold parseLines; exact NoPanic.panicOnly (noPanic_ok _)
+  | l :: ls, st => by
+    unfold parseLines
+    exact PanicOnly.bind (parseLine_panicOnly ds hq isRaw st l) (fun st' => parseLines_panicOnly ds hq isRaw ls st')
+
+/-- `ParseConfig` up to `postprocessParsed`, for ANY file content. -/
+theorem parseConfig_panicOnly (ds : List Descr) (hq : NoQuoteTop ds) (isRaw : Bool) (data : Str) :
+    PanicOnly incompleteString (parseConfig true ds isRaw data) := by
+  unfold parseConfig
+  exact PanicOnly.bind (parseLines_panicOnly ds hq isRaw _ _) (fun st => NoPanic.panicOnly (noPanic_ok _))
+
+/-! ### postprocessParsed: aaa-server, transform-set, metric; routes -/
+
+theorem aaaHost_noPanic (orig parsed : Str) (h : 3 ≤ (fields parsed).length) :
+    NoPanic (aaaHost true orig parsed) := by
+  unfold aaaHost
+  simp only [if_true]
+  split
+  · rename_i w0 w1 w2 rest hf
+    have hw2 : w2 ≠ [] := fields_mem_ne_nil parsed w2 (by rw [hf]; simp)
+    split
+    · exact absurd rfl hw2
+    · rename_i c tl
+      simp only
+      split
+      · rename_i h' tl' hws
+        split
+        · split
+          · exact noPanic_failAt_fixed _ _
+          · exact noPanic_ok _
+        · exact noPanic_ok _
+      · rename_i hws
+        exfalso
+        trace_state
+        sorry
+  · rename_i hf
+    exfalso
+    match hfp : fields parsed, h, hf with
+    | [], h, _ => simp at h
+    | [_], h, _ => simp at h
+    | [_, _], h, _ => simp at h
+    | a :: b :: c :: r, _, hf => exact hf a b c r rfl
+
+/-- `stripMetric` never panics: `tokens[:5]` is guarded by `len(tokens) == 6`. -/
+theorem stripMetric_noPanic (parsed : Str) : NoPanic (stripMetric parsed) := by
+  unfold stripMetric
+  simp only
+  split
+  · rename_i h
+    rw [if_pos (by omega)]
+    exact noPanic_ok _
+  · exact noPanic_ok _
+
+/-- `setTransRef`: `strings.Repeat("$REF ", len(nl)-1)` cannot get a negative count when the text
+behind `cmdPart` contains a character that is not white space. -/
+theorem transRefs_noPanic (names : Str) (h : fields names ≠ []) : NoPanic (transRefs names) := by
+  unfold transRefs
+  split
+  · rename_i hf; exact absurd hf h
+  · exact noPanic_ok _
+
+/-- `dstOfRoute` after the fix: no Go panic for ANY command text. -/
+theorem dstOfRoute_noPanic (isV6 : Bool) (orig parsed : Str) : NoPanic (dstOfRoute true isV6 orig parsed) := by
+  unfold dstOfRoute
+  simp only
+  split
+  · split
+    · exact noPanic_failAt_fixed _ _
+    · exact noPanic_ok _
+  · split
+    · split
+      · split
+        · exact noPanic_ok _
+        · exact noPanic_failAt_fixed _ _
+        · exact noPanic_failAt_fixed _ _
+        · exact noPanic_failAt_fixed _ _
+      · split
+        · exact noPanic_ok _
+        · exact noPanic_failAt_fixed _ _
+    · exact noPanic_failAt_fixed _ _
+
+/-- `routeVRF` (alignVRFs) after the fix, for a command with at least three words
+(`ip route *`: prefix of two words, `*` matches at least one word). -/
+theorem routeVRF_noPanic (orig parsed : Str) (h : 3 ≤ (fields parsed).length) :
+    NoPanic (routeVRF true orig parsed) := by
+  unfold routeVRF
+  split
+  · split
+    · split
+      · exact noPanic_ok _
+      · exact noPanic_failAt_fixed _ _
+    · exact noPanic_ok _
+  · rename_i hf
+    exfalso
+    match hfp : fields parsed, h, hf with
+    | [], h, _ => simp at h
+    | [_], h, _ => simp at h
+    | [_, _], h, _ => simp at h
+    | a :: b :: c :: r, _, hf => exact hf a b c r rfl
+
+/-- `postprocessASAACL` after the fix, for a command with at least four words
+(`access-list $NAME extended *`). -/
+theorem asaACL_noPanic (tb : Tables) (orig parsed : Str) (h : 4 ≤ (fields parsed).length) :
+    NoPanic (asaACL true tb orig parsed) := by
+  unfold asaACL
+  simp only
+  split
+  · rename_i t0 t1 t2 rest hf
+    split
+    · exact noPanic_ok _
+    · split
+      · exact NoPanic.bind (noPanic_aclParts tb orig _) (fun r => noPanic_ok _)
+      · rw [hf] at h
+        simp at h
+  · rename_i hf
+    exfalso
+    match hfp : fields parsed, h, hf with
+    | [], h, _ => simp at h
+    | [_], h, _ => simp at h
+    | [_, _], h, _ => simp at h
+    | a :: b :: c :: r, _, hf => exact hf a b c r rfl
+
+/-- `postprocessIOSACL` after the fix, for a sub command `[$SEQ] permit|deny|remark *`. -/
+theorem iosACL_noPanic (tb : Tables) (orig parsed : Str)
+    (h : ∃ t0 t1 rest, fields parsed = t0 :: t1 :: rest) :
+    NoPanic (iosACL true tb orig parsed) := by
+  obtain ⟨t0, t1, rest, hf⟩ := h
+  unfold iosACL
+  rw [hf]
+  simp only
+  by_cases hs : t0 = lit "$SEQ"
+  · simp only [hs, if_true]
+    split
+    · exact noPanic_ok _
+    · exact NoPanic.bind (noPanic_aclParts tb _ _) (fun r => noPanic_ok _)
+  · simp only [hs, if_false]
+    split
+    · exact noPanic_ok _
+    · exact NoPanic.bind (noPanic_aclParts tb _ _) (fun r => noPanic_ok _)
+
 end NA.C20
